@@ -7,7 +7,9 @@ mod servers;
 mod model;
 mod gen;
 mod enga;
+mod engb;
 mod engc;
+mod enge;
 #[cfg(feature = "shuttle")]
 mod engd;
 mod common;
